@@ -135,6 +135,17 @@ RAW_BAD = ["A : \"b\" ; /* B : C ;", "A : \"\\q\" ;", "a : 'ab' ;", "a : '' ;", 
            "A : b | ;", "A : ;", "A : B ;", "a : _x ;", "a : 'x' ; a : 'y' ;", "!a : 'x' ; !a : 'y' ;", "_a : 'x' ; _a : 'y' ; b : _a ;"]
 
 
+def flagset(rng):
+    """an ill-formed grammar is refused under every configuration: half of the cases run with a random set of the presentation
+    flags (a check that is skipped when, say, no lexer is wanted would let the file through)"""
+    fl = ["-a"]
+    if rng.random() < 0.5:
+        for f in ["-no_lexer", "-zip", "-v", "-debug_parser", "-debug_lexer"]:
+            if rng.random() < 0.4 and not (f == "-debug_lexer" and "-no_lexer" in fl):
+                fl.append(f)
+    return fl
+
+
 def run(tier):
     import gen_frontend
     ck = C.Check("C14", tier)
@@ -165,18 +176,18 @@ def run(tier):
                     if toks[start][0] in "t_!" and start + 1 < len(toks) and toks[start + 1] == ":":
                         defs.append((start, i + 1))
                     start = i + 1
-            cases.append(("base", b.add(None, flags=["-a"], text=text), False, text))
+            cases.append(("base", b.add(None, flags=flagset(ck.rng), text=text), False, text))
             for _ in range(max(6, nmut // 4)):
                 vm = value_mutant(ck.rng, {"lex": lex, "syn": syn})
                 if vm:
                     vtxt = gram.render(vm[1])
-                    vcases.append((vm[0], b.add(None, flags=["-a"], text=vtxt), vm[1], vtxt))
+                    vcases.append((vm[0], b.add(None, flags=flagset(ck.rng), text=vtxt), vm[1], vtxt))
             for _ in range(nmut):
                 kind, t2, ill = mutate(ck.rng, toks, defs)
                 txt = " ".join(t2) + "\n"
-                cases.append((kind, b.add(None, flags=["-a"], text=txt), ill, txt))
+                cases.append((kind, b.add(None, flags=flagset(ck.rng), text=txt), ill, txt))
         for raw in RAW_BAD:
-            cases.append(("hand", b.add(None, flags=["-a"], text=raw.encode("latin1") if any(ord(ch) > 0x7f for ch in raw) else raw), True, raw))
+            cases.append(("hand", b.add(None, flags=flagset(ck.rng), text=raw.encode("latin1") if any(ord(ch) > 0x7f for ch in raw) else raw), True, raw))
         b.generate()
         # oracle: the real scanner's token types + error count, and membership in L(ebnf) by Earley
         srcs = [b.items[i]["text"] for _, i, _, _ in cases]
@@ -217,7 +228,7 @@ def run(tier):
                 elif it["rc"] == 0:
                     why = "lexical errors" if errs or illegal else "token sequence not in spec/gocc2.ebnf" if not in_lang else kind
                     ck.violation("an ill-formed grammar (%s) was accepted with exit status 0: %r" % (why, txt[:200]),
-                                 {"bnf": txt, "kind": kind, "scanner": sc[:400], "earley": e, "stdout": it["out"], "stderr": it["err"][-400:]})
+                                 {"bnf": txt, "flags": it["flags"], "kind": kind, "scanner": sc[:400], "earley": e, "stdout": it["out"], "stderr": it["err"][-400:]})
         # semantic half: the Lean model of the semantic checks predicts the verdict of every value-level mutant
         mlines = []
         for k, (_, _, g2, _) in enumerate(vcases):
@@ -238,11 +249,11 @@ def run(tier):
             vstats[kind]["spec_ill_formed"] = vstats[kind].get("spec_ill_formed", 0) + (sv == "ill")
             if sv == "ill" and it["rc"] == 0 and not it["hang"]:
                 ck.violation("a grammar that violates the property's clauses (%s; Spec/SemWF.lean) was accepted with exit status 0" % kind,
-                             {"bnf": vtxt, "kind": kind, "model": mv, "spec": sv, "stdout": it["out"], "stderr": it["err"][-400:]})
+                             {"bnf": vtxt, "flags": it["flags"], "kind": kind, "model": mv, "spec": sv, "stdout": it["out"], "stderr": it["err"][-400:]})
                 continue
             if (sv == "ill") != (mcat != "ok"):
                 ck.violation("the model of the semantic checks (semCheck: %s) and the property's clauses (%s) disagree on a %s mutant" % (mv, sv, kind),
-                             {"bnf": vtxt, "kind": kind, "model": mv, "spec": sv, "gocc_rc": it["rc"],
+                             {"bnf": vtxt, "flags": it["flags"], "kind": kind, "model": mv, "spec": sv, "gocc_rc": it["rc"],
                               "unchecked": "theorem C14_semCheck_iff"}, found_input=False)
             if mcat != "ok":
                 stats["ill_formed"] += 1
@@ -253,10 +264,10 @@ def run(tier):
                 ck.violation("gocc did not terminate on a semantically mutated grammar", {"bnf": vtxt})
             elif mcat != "ok" and it["rc"] == 0:
                 ck.violation("a grammar the property calls ill-formed (%s: %s) was accepted with exit status 0" % (kind, mv),
-                             {"bnf": vtxt, "kind": kind, "model": mv, "stdout": it["out"], "stderr": it["err"][-400:]})
+                             {"bnf": vtxt, "flags": it["flags"], "kind": kind, "model": mv, "stdout": it["out"], "stderr": it["err"][-400:]})
             elif (mcat if mcat != "ok" else "none") != cat:
                 ck.violation("correspondence broken: semantic checks of gocc answer `%s`, the model semCheck answers `%s` (%s)" % (cat, mv, kind),
-                             {"bnf": vtxt, "kind": kind, "model": mv, "gocc_rc": it["rc"], "stderr": it["err"][-400:]}, found_input=False)
+                             {"bnf": vtxt, "flags": it["flags"], "kind": kind, "model": mv, "gocc_rc": it["rc"], "stderr": it["err"][-400:]}, found_input=False)
         stats["value_mutants"] = vstats
     finally:
         b.close()
